@@ -44,6 +44,10 @@ func (t *InProc) RoundTrip(req *http.Request) (*http.Response, error) {
 	// net/http's transport sends exactly ContentLength bytes and fails the round trip when the
 	// body turns out longer or shorter; emulate that, a handler must never see more.
 	var clErr error
+	if req.Body == nil || req.Body == http.NoBody {
+		// net/http sends Content-Length: 0 for a request without a body, whatever ContentLength says
+		sreq.ContentLength = 0
+	}
 	if req.Body != nil && req.Body != http.NoBody && req.ContentLength == 0 {
 		// net/http treats a zero ContentLength with a non-nil body as "unknown length" and
 		// sends the body chunked: the handler sees ContentLength -1 and the whole body
